@@ -120,11 +120,13 @@ func affineOf(k *big.Int, style int) secp256k1.XY {
 }
 
 type groupStats struct {
-	applied  int
-	doubling int // Add/AddXY of equal points
-	inverse  int // P + (-P)
-	withInf  int
-	infRes   int
+	applied   int
+	doubling  int // Add/AddXY of equal points
+	inverse   int // P + (-P)
+	withInf   int
+	infRes    int
+	converted int // SetXYZ applied to a register in place
+	reused    int // a later operation took such a register as an operand
 }
 
 func checkGroup(c groupCase) error {
@@ -144,10 +146,14 @@ func runGroup(c groupCase) (st groupStats, err error) {
 			return st, fmt.Errorf("harness: %v", err)
 		}
 	}
+	conv := map[*gReg]bool{} // registers whose representation was rescaled in place by SetXYZ
 	for n, op := range c.Ops {
 		a, b, r := &regs[pidx(op.A)], &regs[pidx(op.B)], &regs[pidx(op.R)]
 		if op.Alias {
 			r = a
+		}
+		if conv[a] || conv[b] && (op.Op == "add" || op.Op == "addxy") {
+			st.reused++
 		}
 		what := fmt.Sprintf("op %d %s(a=P%d b=P%d r=P%d alias=%v na=%s ng=%s)", n, op.Op, pidx(op.A), pidx(op.B), pidx(op.R), op.Alias, op.NA, op.NG)
 		pair := func(ka, kb *big.Int) {
@@ -232,14 +238,17 @@ func runGroup(c groupCase) (st groupStats, err error) {
 			var xng secp256k1.Number
 			xng.Set(ng)
 			secp256k1.ECmultGen(&out, &xng)
-		case "setxy": // Jacobian from affine, with the affine made by gocoin's own conversion of a copy
+		case "setxy": // Jacobian -> affine -> Jacobian.  SetXYZ rescales its ARGUMENT in place (that is
+			// its documented way of working); the argument register is used again by later
+			// operations and must keep denoting the same point.
 			kout = new(big.Int).Set(a.k)
 			var xy secp256k1.XY
-			cp := a.p
-			if cp.Infinity {
+			if a.p.Infinity {
 				xy.Infinity = true
 			} else {
-				xy.SetXYZ(&cp)
+				xy.SetXYZ(&a.p)
+				st.converted++
+				conv[a] = true
 			}
 			out.SetXY(&xy)
 		default:
@@ -249,16 +258,18 @@ func runGroup(c groupCase) (st groupStats, err error) {
 		if kout.Sign() == 0 {
 			st.infRes++
 		}
+		if !(op.Op == "setxy" && r != a) {
+			delete(conv, r)
+		}
 		*r = gReg{p: out, k: kout}
 		if err := r.check(what); err != nil {
 			return st, err
 		}
-		// operands keep denoting the same points
-		if err := a.check(what + " [operand a afterwards]"); err != nil {
-			return st, err
-		}
-		if err := b.check(what + " [operand b afterwards]"); err != nil {
-			return st, err
+		// every register - operands included - keeps denoting its point
+		for i := range regs {
+			if err := regs[i].check(fmt.Sprintf("%s [register P%d afterwards]", what, i)); err != nil {
+				return st, err
+			}
 		}
 	}
 	return st, nil
@@ -315,7 +326,7 @@ func genGroupCase(t *rapid.T) groupCase {
 		pool = append(pool, modN(bigHex(in.K)))
 	}
 	nops := rapid.IntRange(1, 8).Draw(t, "nops")
-	names := []string{"add", "add", "add", "addxy", "addxy", "double", "double", "neg", "ecmult", "ecmult", "ecmultgen", "setxy"}
+	names := []string{"add", "add", "add", "addxy", "addxy", "double", "double", "neg", "ecmult", "ecmult", "ecmultgen", "setxy", "setxy"}
 	for n := 0; n < nops; n++ {
 		op := gOp{Op: rapid.SampledFrom(names).Draw(t, "op"), A: rapid.IntRange(0, nPts-1).Draw(t, "a"), B: rapid.IntRange(0, nPts-1).Draw(t, "b"),
 			R: rapid.IntRange(0, nPts-1).Draw(t, "r"), Alias: rapid.Bool().Draw(t, "alias")}
@@ -353,6 +364,9 @@ func TestGroupOps(t *testing.T) {
 		}
 		if st.infRes > 0 {
 			r.Class("result_infinity")
+		}
+		if st.reused > 0 {
+			r.Class("register_reused_after_setxyz")
 		}
 		seen := map[string]bool{}
 		for _, op := range c.Ops {
